@@ -531,3 +531,136 @@ func buildFamily(depth int) []famMod {
 	}
 	return out
 }
+
+// buildNoDep: every instruction that implicitly depends on a definition (the memory, table k, the data
+// count section, a data / element segment, a declared function reference, a global, a type), alone in a
+// module that LACKS that definition. Each module is invalid by construction; the oracle is the general
+// one (rejected, or accepted and sound). One instruction per module, because a validator that forgets
+// the existence check for a subset of opcodes still rejects a module that also contains the others.
+func buildNoDep() []famMod {
+	var out []famMod
+	add := func(name string, in, res []byte, body []byte, prep func(m *wb.Module)) {
+		m := &wb.Module{}
+		if prep != nil {
+			prep(m)
+		}
+		m.ExportFunc("f", m.AddFunc(in, res, nil, body))
+		out = append(out, famMod{Name: name, B: m.Encode()})
+	}
+	push := func(as *wb.Asm, ts []byte) {
+		for _, t := range ts {
+			switch t {
+			case i32:
+				as.I32Const(0)
+			case i64:
+				as.I64Const(0)
+			case f32:
+				as.F32Const(0)
+			case f64:
+				as.F64Const(0)
+			case v128:
+				as.V128Const(0, 0)
+			}
+		}
+	}
+	// ---- no memory
+	for _, mo := range memOps {
+		as := a().I32Const(0)
+		var res []byte
+		if mo.store {
+			push(as, []byte{mo.t})
+		} else {
+			res = vt(mo.t)
+		}
+		as.Mem(mo.op, 0, 0)
+		add(fmt.Sprintf("nomem:0x%02x", mo.op), nil, res, as.B, nil)
+	}
+	for _, mo := range simdMemOps {
+		as := a().I32Const(0)
+		var res []byte
+		if mo.store || mo.lanes > 0 {
+			as.V128Const(0, 0)
+		}
+		as.SimdMem(mo.op, 0, 0)
+		if mo.lanes > 0 {
+			as.Raw(0)
+		}
+		if !mo.store {
+			res = vt(v128)
+		}
+		add(fmt.Sprintf("nomem:simd:%d", mo.op), nil, res, as.B, nil)
+	}
+	for _, ao := range atomicOps() {
+		as := a()
+		push(as, ao.in)
+		as.AtomicMem(ao.op, ao.natural, 0)
+		add(fmt.Sprintf("nomem:atomic:0x%02x", ao.op), nil, ao.out, as.B, nil)
+	}
+	add("nomem:memory.size", nil, vt(i32), a().MemorySize().B, nil)
+	add("nomem:memory.grow", nil, vt(i32), a().I32Const(0).MemoryGrow().B, nil)
+	add("nomem:memory.fill", nil, nil, a().I32Const(0).I32Const(0).I32Const(0).MemoryFill().B, nil)
+	add("nomem:memory.copy", nil, nil, a().I32Const(0).I32Const(0).I32Const(0).MemoryCopy().B, nil)
+	add("nomem:memory.init", nil, nil, a().I32Const(0).I32Const(0).I32Const(0).MemoryInit(0).B, func(m *wb.Module) {
+		m.DataCount = true
+		m.Datas = []wb.Data{{Passive: true, Bytes: []byte{1}}}
+	})
+	add("nomem:active-data", nil, nil, nil, func(m *wb.Module) { m.Datas = []wb.Data{{Offset: wb.CI32(0), Bytes: []byte{1}}} })
+	// ---- memory present, but no data count section / no such data segment
+	withMem := func(m *wb.Module) { m.Mem = &wb.Limits{Min: 1} }
+	add("nodatacount:memory.init", nil, nil, a().I32Const(0).I32Const(0).I32Const(0).MemoryInit(0).B, func(m *wb.Module) {
+		withMem(m)
+		m.Datas = []wb.Data{{Passive: true, Bytes: []byte{1}}}
+	})
+	add("nodatacount:data.drop", nil, nil, a().DataDrop(0).B, func(m *wb.Module) {
+		withMem(m)
+		m.Datas = []wb.Data{{Passive: true, Bytes: []byte{1}}}
+	})
+	add("nodata:memory.init", nil, nil, a().I32Const(0).I32Const(0).I32Const(0).MemoryInit(0).B, func(m *wb.Module) { withMem(m); m.DataCount = true })
+	add("nodata:data.drop", nil, nil, a().DataDrop(0).B, func(m *wb.Module) { withMem(m); m.DataCount = true })
+	// ---- no table (k = 0) / only table 0 (k = 1)
+	for k := uint32(0); k < 2; k++ {
+		prep := func(m *wb.Module) {
+			if k == 1 {
+				m.Tables = []wb.Table{{Elem: fref, Lim: wb.Limits{Min: 1}}}
+			}
+			m.Type(nil, nil)
+		}
+		n := fmt.Sprintf("notable%d:", k)
+		add(n+"call_indirect", nil, nil, a().I32Const(0).CallIndirect(0, k).B, prep)
+		add(n+"return_call_indirect", nil, nil, a().I32Const(0).ReturnCallIndirect(0, k).B, prep)
+		add(n+"table.get", nil, vt(fref), a().I32Const(0).TableGet(k).B, prep)
+		add(n+"table.set", nil, nil, a().I32Const(0).RefNull(fref).TableSet(k).B, prep)
+		add(n+"table.size", nil, vt(i32), a().TableSize(k).B, prep)
+		add(n+"table.grow", nil, vt(i32), a().RefNull(fref).I32Const(0).TableGrow(k).B, prep)
+		add(n+"table.fill", nil, nil, a().I32Const(0).RefNull(fref).I32Const(0).TableFill(k).B, prep)
+		add(n+"table.copy.dst", nil, nil, a().I32Const(0).I32Const(0).I32Const(0).TableCopy(k, 0).B, prep)
+		add(n+"table.copy.src", nil, nil, a().I32Const(0).I32Const(0).I32Const(0).TableCopy(0, k).B, prep)
+		add(n+"table.init", nil, nil, a().I32Const(0).I32Const(0).I32Const(0).TableInit(0, k).B, func(m *wb.Module) {
+			prep(m)
+			m.Elems = []wb.Elem{{Mode: 1, Funcs: nil}}
+		})
+		add(n+"active-elem", nil, nil, nil, func(m *wb.Module) {
+			prep(m)
+			m.Elems = []wb.Elem{{Mode: 0, TableIdx: k, Offset: wb.CI32(0), Funcs: nil, UseExprs: k == 1}}
+		})
+	}
+	// ---- no such element segment / function declaration / global / type / function / local / label
+	withTable := func(m *wb.Module) { m.Tables = []wb.Table{{Elem: fref, Lim: wb.Limits{Min: 1}}} }
+	add("noelem:table.init", nil, nil, a().I32Const(0).I32Const(0).I32Const(0).TableInit(0, 0).B, withTable)
+	add("noelem:elem.drop", nil, nil, a().ElemDrop(0).B, withTable)
+	// function 0 exists but is neither exported nor named by an element segment or a global
+	add("nodecl:ref.func", nil, vt(fref), a().RefFunc(0).B, func(m *wb.Module) { m.AddFunc(nil, nil, nil, nil) })
+	add("noglobal:global.get", nil, vt(i32), a().GlobalGet(0).B, nil)
+	add("noglobal:global.set", nil, nil, a().I32Const(0).GlobalSet(0).B, nil)
+	add("notype:call_indirect", nil, nil, a().I32Const(0).CallIndirect(7, 0).B, withTable)
+	add("notype:block", nil, nil, a().BlockT(7).End().B, nil)
+	add("nofunc:call", nil, nil, a().Call(1).B, nil)
+	add("nofunc:return_call", nil, nil, a().ReturnCall(1).B, nil)
+	add("nofunc:ref.func", nil, vt(fref), a().RefFunc(1).B, nil)
+	add("nolocal:local.get", nil, vt(i32), a().LocalGet(0).B, nil)
+	add("nolabel:br", nil, nil, a().Br(1).B, nil)
+	add("nofunc:start", nil, nil, nil, func(m *wb.Module) { m.Start = u32p(5) })
+	add("nofunc:export", nil, nil, nil, func(m *wb.Module) { m.Exports = append(m.Exports, wb.Export{Name: "x", Kind: wb.KindFunc, Idx: 5}) })
+	add("noglobal:constexpr", nil, nil, nil, func(m *wb.Module) { m.AddGlobal(i32, false, wb.CGlobal(3)) })
+	return out
+}
